@@ -92,22 +92,22 @@ def handle : List String → String
     | some s => match atoi s with
       | some n => s!"ok {n}"
       | none => "none"
-  /- spec <stream>: what the protocol text advertises + known-finding class of the input -/
+  /- spec <stream>: what the protocol text advertises + regression shape of the input (informational) -/
   | ["spec", hx] =>
     match bytesOfHex hx with
     | none => "bad-op"
     | some bs =>
       let end? := match specHdrEnd bs with | some n => toString n | none => "-"
       match specAdv bs with
-      | some a => s!"wf remote={encSel a.remote} local={encSel a.loc} len={a.hdrLen} may-reject={ofBool a.mayReject} end={end?} must-fail={ofBool (mustFail bs)} class={knownClass bs}"
-      | none => s!"none end={end?} must-fail={ofBool (mustFail bs)} class={knownClass bs}"
+      | some a => s!"wf remote={encSel a.remote} local={encSel a.loc} len={a.hdrLen} may-reject={ofBool a.mayReject} end={end?} must-fail={ofBool (mustFail bs)} shape={regressionShape bs}"
+      | none => s!"none end={end?} must-fail={ofBool (mustFail bs)} shape={regressionShape bs}"
   /- holds <stream> <accepted> <remote> <local> <payload>: the property clauses on an observation -/
   | ["holds", hx, acc, ra, la, pl] =>
     match bytesOfHex hx, boolOf acc, decSel ra, decSel la, bytesOfHex pl with
     | some bs, some acc, some r, some l, some p =>
       match holdsObs bs ⟨acc, r, l, p⟩ with
       | none => "true"
-      | some clause => s!"false {clause} {knownClass bs}"
+      | some clause => s!"false {clause}"
     | _, _, _, _, _ => "bad-op"
   | _ => "bad-op"
 
